@@ -14,7 +14,14 @@ use std::path::{Path, PathBuf};
 use std::sync::{Arc, Mutex};
 use std::time::Instant;
 
-pub const VERIF_ROOT: &str = "/verif";
+/// Root of the verification tree: $VERIF_ROOT (set by ./run to its own directory), default /verif.
+pub fn verif_root() -> PathBuf {
+    PathBuf::from(std::env::var("VERIF_ROOT").unwrap_or_else(|_| "/verif".to_string()))
+}
+/// The repository under test: $VERIF_REPO, default /repo.
+pub fn repo_root() -> String {
+    std::env::var("VERIF_REPO").unwrap_or_else(|_| "/repo".to_string())
+}
 
 #[derive(Clone, Copy, Debug, PartialEq, Eq)]
 pub enum Tier {
@@ -138,7 +145,7 @@ pub struct FindingsFile {
     pub findings: Vec<Finding>,
 }
 pub fn load_findings() -> Vec<Finding> {
-    let p = Path::new(VERIF_ROOT).join("known_findings.json");
+    let p = verif_root().join("known_findings.json");
     match std::fs::read_to_string(&p) {
         Ok(s) => match serde_json::from_str::<FindingsFile>(&s) {
             Ok(f) => f.findings,
@@ -296,7 +303,7 @@ fn known_line_once(printed: &Mutex<HashSet<String>>, id: &str, f: &Finding) {
 }
 
 fn write_replay(id: &str, found: &Found) -> PathBuf {
-    let dir = Path::new(VERIF_ROOT).join("work").join("replays");
+    let dir = verif_root().join("work").join("replays");
     let _ = std::fs::create_dir_all(&dir);
     let rf = ReplayFile {
         property: id.to_string(),
@@ -339,7 +346,7 @@ pub fn run_property<P: Property>(ctx: &RunCtx) -> i32 {
 
     // 1. saved regressions
     let mut regressions_run = 0u64;
-    let regdir = Path::new(VERIF_ROOT).join("regressions").join(P::ID);
+    let regdir = verif_root().join("regressions").join(P::ID);
     if let Ok(rd) = std::fs::read_dir(&regdir) {
         let mut files: Vec<PathBuf> = rd.filter_map(|e| e.ok()).map(|e| e.path()).filter(|p| p.extension().map(|x| x == "json").unwrap_or(false)).collect();
         files.sort();
@@ -509,7 +516,7 @@ pub fn run_property<P: Property>(ctx: &RunCtx) -> i32 {
         "wall_s": wall,
         "violations": found.len(),
     });
-    let evdir = Path::new(VERIF_ROOT).join("evidence");
+    let evdir = verif_root().join("evidence");
     let _ = std::fs::create_dir_all(&evdir);
     std::fs::write(evdir.join(format!("{}.json", P::ID)), serde_json::to_string_pretty(&evidence).unwrap() + "\n").unwrap();
 
